@@ -18,3 +18,5 @@ pub mod recovery;
 pub mod streams;
 pub mod sync;
 pub mod misc;
+pub mod recv;
+pub mod common;
